@@ -1,7 +1,7 @@
 CONSTANTS
   Variant = "ok"
   MaxMoves = 99
-  CfgSel = {"weekly", "oneshot", "workday", "yearly"}
+  CfgSel = {"weekly", "oneshot", "workday"}
   Depth = 5
 SPECIFICATION GSpec
 CONSTRAINT Emit
